@@ -584,3 +584,94 @@ pub proof fn lemma_normalize_idempotent(p: Seq<u8>, fa: bool, at0: bool)
     }
 }
 } // verus!
+verus! {
+// ---- C16: suffix ----
+/// equality of two segments as percent-encoded strings (pct_str's PartialEq: compares the decoded characters).
+/// Uninterpreted: the dependency is not verified; the contract of suffix is stated relative to it.
+pub uninterp spec fn pct_eq(a: Seq<u8>, b: Seq<u8>) -> bool;
+pub assume_specification [<pct_str::PctStr as PartialEq>::eq] (a: &pct_str::PctStr, b: &pct_str::PctStr) -> (r: bool)
+    ensures r == pct_eq(pct_text(a), pct_text(b));
+/// `pre` is a leading part of `full`, segment by segment
+pub open spec fn pct_prefix(pre: Seq<Seq<u8>>, full: Seq<Seq<u8>>) -> bool {
+    pre.len() <= full.len() && forall|i: int| 0 <= i < pre.len() ==> pct_eq(#[trigger] full[i], pre[i])
+}
+/// successive pushes onto a path text
+pub open spec fn push_fold(p: Seq<u8>, l: Seq<Seq<u8>>, fa: bool, at0: bool) -> Seq<u8>
+    decreases l.len()
+{
+    if l.len() == 0 { p } else { push_text(push_fold(p, l.drop_last(), fa, at0), l.last(), fa, at0) }
+}
+pub proof fn lemma_push_fold_push(p: Seq<u8>, l: Seq<Seq<u8>>, s: Seq<u8>, fa: bool, at0: bool)
+    ensures push_fold(p, l.push(s), fa, at0) == push_text(push_fold(p, l, fa, at0), s, fa, at0),
+{
+    assert(l.push(s).drop_last() =~= l);
+}
+/// the text of a default-constructed owned path
+pub uninterp spec fn default_bytes<T>() -> Seq<u8>;
+/// TRUSTED: the owned path types of the facade derive Default from Vec<u8> / String: the empty path
+#[verifier::external_body]
+pub proof fn axiom_default_path_buf<B: crate::common::path::PathBufImpl>()
+    ensures default_bytes::<B>() == sq0(),
+{}
+pub proof fn lemma_push_len(p: Seq<u8>, s: Seq<u8>, fa: bool, at0: bool)
+    ensures push_text(p, s, fa, at0).len() <= p.len() + s.len() + 4,
+{
+    reveal(push_text0);
+}
+pub proof fn lemma_push_fold_len(p: Seq<u8>, l: Seq<Seq<u8>>, fa: bool, at0: bool)
+    ensures push_fold(p, l, fa, at0).len() <= p.len() + total_len(l), total_len(l) >= 0,
+    decreases l.len()
+{
+    if l.len() > 0 {
+        lemma_push_fold_len(p, l.drop_last(), fa, at0);
+        lemma_push_len(push_fold(p, l.drop_last(), fa, at0), l.last(), fa, at0);
+    }
+}
+/// total_len is monotone in sub-sequences
+pub proof fn lemma_total_len_sub(l: Seq<Seq<u8>>, i: int, j: int)
+    requires 0 <= i <= j <= l.len(),
+    ensures 0 <= total_len(l.subrange(i, j)) <= total_len(l),
+    decreases l.len()
+{
+    if l.len() > 0 {
+        if j == l.len() {
+            if i == j { assert(l.subrange(i, j) =~= Seq::<Seq<u8>>::empty()); lemma_total_len_sub(l.drop_last(), 0, 0); assert(l.drop_last().subrange(0, 0) =~= Seq::<Seq<u8>>::empty()); }
+            else {
+                assert(l.subrange(i, j).drop_last() =~= l.drop_last().subrange(i, j - 1));
+                assert(l.subrange(i, j).last() == l.last());
+                lemma_total_len_sub(l.drop_last(), i, j - 1);
+            }
+        } else {
+            assert(l.subrange(i, j) =~= l.drop_last().subrange(i, j));
+            lemma_total_len_sub(l.drop_last(), i, j);
+        }
+    } else { assert(l.subrange(i, j) =~= l); }
+}
+/// the normalized sequence of a path is no longer (in total_len) than 6 bytes per byte of the path
+pub proof fn lemma_total_len_norm(p: Seq<u8>)
+    requires path_shape(p),
+    ensures total_len(norm_segs(p)) <= 6 * (p.len() + 1),
+{
+    lemma_total_len_norm_fold(segs(p), !p_is_abs(p));
+    if !p_is_empty(p) { lemma_total_len_split(p, p_first_off(p)); }
+}
+pub proof fn lemma_total_len_norm_fold(l: Seq<Seq<u8>>, rel: bool)
+    ensures total_len(norm_fold(l, rel)) <= total_len(l), total_len(l) >= 0,
+    decreases l.len()
+{
+    if l.len() > 0 {
+        lemma_total_len_norm_fold(l.drop_last(), rel);
+        let st = norm_fold(l.drop_last(), rel);
+        let s = l.last();
+        let r = norm_step(st, s, rel);
+        if r =~= st.push(s) { assert(r.drop_last() =~= st); assert(r.last() == s); }
+        else if st.len() > 0 && r =~= st.drop_last() { lemma_total_len_norm_fold_nonneg(st.drop_last()); }
+    }
+}
+proof fn lemma_total_len_norm_fold_nonneg(l: Seq<Seq<u8>>)
+    ensures total_len(l) >= 0,
+    decreases l.len()
+{
+    if l.len() > 0 { lemma_total_len_norm_fold_nonneg(l.drop_last()); }
+}
+} // verus!
